@@ -463,6 +463,12 @@ func (s *Set) Value(_ context.Context, t *dials.Type) (reflect.Value, error) {
 		case ffield.Type():
 			ffield.Set(fval)
 			return
+		case reflect.PtrTo(ffield.Type()):
+			// the flag's value is a pointer and the field isn't: a
+			// text-unmarshaler of slice or map kind (e.g. net.IP), which
+			// Pointerify leaves as it is.
+			ffield.Set(fval.Elem())
+			return
 		}
 		if fval.Kind() == reflect.Ptr && fval.Type().ConvertibleTo(ffield.Type()) {
 			// the complex-number helpers hand back a pointer to the
